@@ -15,6 +15,7 @@ import PyOak.Handle.Visitor
 import PyOak.Handle.Accessors
 import PyOak.Handle.Pattern
 import PyOak.Handle.Legacy
+import PyOak.Handle.OriginCodec
 open PyOak PyOak.Sexp
 
 def dispatch (s : Sexp) : Sexp :=
@@ -31,6 +32,7 @@ def dispatch (s : Sexp) : Sexp :=
       else if cmd == "isinst" then handleIsInst args
       else if cmd == "construct" then handleConstruct args
       else if cmd == "c11-chain" || cmd == "c11-classify" then handleAnnot cmd args
+      else if cmd.startsWith "oc-" then handleOriginCodec cmd args
       else if cmd.startsWith "o-" then handleOrigin cmd args
       else if cmd == "c16" then PyOak.SerOpts.handleC16 args
       else if cmd == "ldfs" || cmd == "lbfs" || cmd == "lgather" || cmd == "lcalc" || cmd == "lxpath" then
